@@ -755,3 +755,14 @@ Qed.
 Lemma scene_barrier_without_done_stuck :
   exists ls s, wrun false wg_init ls = Some s /\ wg_running s = 0%nat /\ wg_count s > 0.
 Proof. exists [WLaunch LRefused]. eexists. cbn. repeat split. Qed.
+
+(** * Part 4: collectErrors never blocks at the end of a scene *)
+Lemma collect_never_blocks ls : (1 <= errch_at_collect true ls)%nat.
+Proof.
+  destruct ls as [|l tl]; cbn; [lia|].
+  destruct l as [[|]|o]; cbn; lia.
+Qed.
+
+Lemma collect_blocks_without_report_first :
+  exists ls, errch_at_collect false ls = 0%nat.
+Proof. exists [SLMood true]. reflexivity. Qed.
